@@ -7,7 +7,10 @@ fn main() -> Result<(), Box<dyn Error>> {
     let file_path = env::args().nth(1).ok_or("Missing file path")?;
     let contents = fs::read_to_string(file_path)?;
 
-    let (_, dom) = xml_dom::XmlDocument::from_raw(&contents)?;
+    let (rest, dom) = xml_dom::XmlDocument::from_raw(&contents)?;
+    if !rest.is_empty() {
+        return Err("invalid format XML".into());
+    }
     let elements = dom.get_elements_by_tag_name("*");
 
     for element in elements.iter() {
